@@ -16,6 +16,7 @@ import (
 type aVal struct {
 	Op   string  `json:"op"`             // set unset incr append shift push pop pipeline
 	B    []byte  `json:"b,omitempty"`    // payload
+	A    bool    `json:"a,omitempty"`    // set: the payload is stored with the array value-type flag
 	L    int     `json:"l,omitempty"`    // set/append/push: payload of L bytes derived from (L, B) instead of B itself (large values)
 	N    int64   `json:"n,omitempty"`    // incr operand / shift length / pop count
 	P    []byte  `json:"p,omitempty"`    // optional property value (code 1)
@@ -45,6 +46,9 @@ func (v *aVal) String() string {
 		if v.L > 0 {
 			s += fmt.Sprintf(" expanded to %d bytes", v.L)
 		}
+		if v.A {
+			s += " as array"
+		}
 	case "incr", "shift", "pop":
 		s += fmt.Sprint(v.N)
 	case "pipeline":
@@ -72,7 +76,11 @@ func (v *aVal) commandData() *protocol.LockCommandData {
 	var d *protocol.LockCommandData
 	switch v.Op {
 	case "set":
-		d = protocol.NewLockCommandDataFromBytes(v.bytes(), protocol.LOCK_DATA_STAGE_CURRENT, protocol.LOCK_DATA_COMMAND_TYPE_SET, 0, v.props())
+		flag := uint8(0)
+		if v.A {
+			flag = protocol.LOCK_DATA_FLAG_VALUE_TYPE_ARRAY
+		}
+		d = protocol.NewLockCommandDataFromBytes(v.bytes(), protocol.LOCK_DATA_STAGE_CURRENT, protocol.LOCK_DATA_COMMAND_TYPE_SET, flag, v.props())
 	case "unset":
 		d = protocol.NewLockCommandDataUnsetData()
 	case "incr":
@@ -181,7 +189,7 @@ func aArrayBytes(elems [][]byte) []byte {
 func aInterp(cur *aValue, op *aVal) *aValue {
 	switch op.Op {
 	case "set":
-		return &aValue{Payload: op.bytes()}
+		return &aValue{Payload: op.bytes(), Arr: op.A}
 	case "unset":
 		return nil
 	case "incr":
